@@ -279,6 +279,9 @@ def parse_show(rc_case, stdout):
         for path in sorted(paths, key=len, reverse=True):
             t = t.replace(path + '.', '')
         return t
+    # Go names of renamed sets back to their abstract names
+    back = {(s['pkg'], rc_case.nm(s['name'])): s['name'] for s in rc_case.P.get('sets', [])}
+    unname = lambda pkg, n: back.get((pkg, n), n)
     sets, injectors = [], []
     cur = None
     grp = None
@@ -289,7 +292,7 @@ def parse_show(rc_case, stdout):
             cur = None
             mode = 'set'
             if m.group(1) in paths:
-                cur = {'id': paths[m.group(1)] + '.' + m.group(2), 'includes': [], 'groups': []}
+                cur = {'id': paths[m.group(1)] + '.' + unname(paths[m.group(1)], m.group(2)), 'includes': [], 'groups': []}
                 sets.append(cur)
             continue
         if line.strip() == 'Injectors:':
@@ -302,7 +305,7 @@ def parse_show(rc_case, stdout):
                 if m.group(1) in paths:
                     injectors.append(m.group(2))
             elif cur is not None:
-                cur['includes'].append((paths.get(m.group(1)) or m.group(1)) + '.' + m.group(2))
+                cur['includes'].append((paths.get(m.group(1)) or m.group(1)) + '.' + unname(paths.get(m.group(1)), m.group(2)))
             continue
         if cur is None:
             continue
